@@ -28,10 +28,19 @@ INSTANCES = ['tm.web#0000000011', 'tm.web#0000000012', 'ab.db#0000000003']
 # ------------------------------------------------------------------ generator
 def _scenario(rng, i):
     """op fragments aimed at the histories the property names"""
-    s = rng.choice(['evict-replace', 'terminate-restart', 'exit-resync', 'flip', 'late-event', 'fail'])
+    s = rng.choice(['evict-replace', 'evict-replace', 'evict-replace-fast', 'terminate-restart', 'exit-resync', 'flip',
+                    'late-event', 'fail', 'replace-while-down', 'finish-boot', 'finish-boot'])
     d = {'op': 'deliver'}
     if s == 'evict-replace':      # same instance evicted and placed again, old generation still in cleanup
         return [{'op': 'del', 'i': i}, d, {'op': 'put', 'i': i, 'ok': True}, d]
+    if s == 'evict-replace-fast':   # evicted and placed again before the manager handles the first event
+        return [{'op': 'put', 'i': i, 'ok': True}, {'op': 'del', 'i': i}, {'op': 'put', 'i': i, 'ok': True}, d, d, d]
+    if s == 'replace-while-down':   # the manifest is replaced while the manager is down
+        return [{'op': 'put', 'i': i, 'ok': True}, {'op': 'restart'}, {'op': 'ready_up'}, d]
+    if s == 'finish-boot':          # node reboot: running/ and cleanup/ are cleared, finished containers remain in apps/
+        return [rng.choice([{'op': 'exit', 'i': i, 'kind': rng.choice(KINDS)},
+                            {'op': 'flag', 'i': i, 'g': rng.randint(0, 1), 'kind': rng.choice(KINDS)}]),
+                {'op': 'boot'}, {'op': 'ready_up'}, d]
     if s == 'terminate-restart':
         return [{'op': 'del', 'i': i}, d, {'op': 'restart'}, {'op': 'ready_up'}, d]
     if s == 'exit-resync':
@@ -68,11 +77,13 @@ def gen_case(rng, idx):
             ops.append({'op': 'exit', 'i': i, 'kind': rng.choice(KINDS)})
         elif c < 0.69:
             ops.append({'op': 'flag', 'i': i, 'g': rng.randint(0, 2), 'kind': rng.choice(KINDS)})
-        elif c < 0.77:
+        elif c < 0.74:
             ops.append({'op': 'cleanup', 'l': rng.choice([['inst', i], ['cont', i, rng.randint(0, 2)]])})
-        elif c < 0.82:
+        elif c < 0.77:
             ops.append({'op': 'restart'})
-        elif c < 0.84:
+        elif c < 0.78:
+            ops.append({'op': 'boot'})
+        elif c < 0.80:
             ops.append({'op': 'dot', 'created': rng.random() < 0.5})
         else:
             ops += _scenario(rng, i)
@@ -229,6 +240,13 @@ class Node:
             self.mgr = self.m['appcfgmgr'].AppCfgMgr(self.root, 'linux')
             self.queue = []
             return {'m': 'Restart'}
+        if k == 'boot':
+            for d in (env.running_dir, env.cleanup_dir):
+                for name in os.listdir(d):
+                    os.unlink(os.path.join(d, name))
+            self.mgr = self.m['appcfgmgr'].AppCfgMgr(self.root, 'linux')
+            self.queue = []
+            return {'m': 'Boot'}
         if k == 'exit':
             name = INSTANCES[op['i']]
             link = os.path.join(env.running_dir, name)
@@ -359,6 +377,12 @@ def oracle(case, res):
     for t, (mop, post) in enumerate(zip(res['mops'], res['obs'])):
         where = 'after op %d (%s)' % (t, case['ops'][t]['op'])
         lpre, lpost = _links(pre), _links(post)
+        by = case['ops'][t]['op']
+        if mop['m'] == 'Deliver' and pre['queue']:
+            by = {'created': '_on_created', 'deleted': '_on_deleted', 'ready_up': '_first_sync',
+                  'ready_down': '_on_deleted', 'dot': 'dot-event'}[pre['queue'][0][0]]
+            if pre['queue'][0][0] == 'ready_up' and not pre['active']:
+                by = '_synchronize'
         # P1: at most one link per container
         for ck, ls in sorted(lpost.items()):
             if len(ls) > 1 and len(lpre.get(ck, [])) <= 1:
@@ -366,7 +390,7 @@ def oracle(case, res):
                 if kinds == ['cleanup/c', 'cleanup/i']:
                     sig = 'two-cleanup-links-container-name-vs-instance-name'
                 elif any(l.startswith('running/') for l in ls):
-                    sig = 'container-running-and-in-cleanup'
+                    sig = 'container-running-and-in-cleanup:by-' + by
                 else:
                     sig = 'container-with-several-links'
                 out.append((sig, 'container %s is referenced by %r %s' % (ck, sorted(ls), where)))
@@ -381,8 +405,10 @@ def oracle(case, res):
                 now = post['running'].get(i)
                 if should and now != [int(i), fid]:
                     older = any(k.split(',')[0] == i and k != ck for k in pre['apps'])
+                    pending = any(e[0] == 'created' and e[1] == INSTANCES[int(i)] for e in post['queue'])
                     out.append(('sync-leaves-configurable-cached-instance-not-running'
-                                + (':another-generation-present' if older else ''),
+                                + (':another-generation-present' if older else '')
+                                + (':created-event-pending' if pending else ':no-event-pending'),
                                 'instance %s (container %s) is cached and configurable but running/%s = %r %s'
                                 % (i, ck, i, now, where)))
             for i, c in sorted(post['running'].items()):
@@ -407,15 +433,21 @@ def oracle(case, res):
                     if any(l.startswith('running/') for l in ls) or not any(l.startswith('cleanup/') for l in ls):
                         out.append(('uncached-container-not-handed-to-cleanup',
                                     'container %s lost its cache entry but its links are %r %s' % (ck, ls, where)))
+            # a handler never drops a running container without handing it to cleanup
+            for i, c in sorted(pre['running'].items()):
+                ck = '%d,%d' % tuple(c)
+                if ck in post['apps'] and not lpost.get(ck):
+                    out.append(('running-container-dropped-without-cleanup:by-' + by,
+                                'running/%s -> %s is gone and the container has no link %s' % (i, ck, where)))
             # P4: a finished / aborted / oom container is never started again
             for i, c in sorted(post['running'].items()):
                 if pre['running'].get(i) != c:
                     ck = '%d,%d' % tuple(c)
                     if _flagged(pre, ck):
-                        out.append(('finished-container-started-again',
+                        out.append(('finished-container-started-again:by-' + by,
                                     'running/%s -> %s created although the container has a finish flag %s' % (i, ck, where)))
                     elif ck in finished and ck not in pre['apps']:
-                        out.append(('finished-container-recreated-after-cleanup',
+                        out.append(('finished-container-recreated-after-cleanup:by-' + by,
                                     'running/%s -> %s: same container name as one that finished and was cleaned up %s'
                                     % (i, ck, where)))
             # P5: an unchanged running container is left running
@@ -425,9 +457,12 @@ def oracle(case, res):
                 if ck in pre['apps'] and not _flagged(pre, ck) and cached is not None and cached[0] == c[1] \
                         and cached[1] and post['running'].get(i) != c:
                     other = any(k.split(',')[0] == i and k != ck for k in pre['apps'])
-                    out.append(('unchanged-running-container-stopped' + (':another-generation-present' if other else ''),
+                    out.append(('unchanged-running-container-stopped:by-' + by
+                                + (':another-generation-present' if other else ''),
                                 'running/%s -> %s with unchanged manifest is gone (now %r) %s'
                                 % (i, ck, post['running'].get(i), where)))
+        if out:
+            break       # later steps start from a state that already violates the property: report root causes only
         for ck in post['apps']:
             if _flagged(post, ck):
                 finished.add(ck)
@@ -455,7 +490,7 @@ def t_op(m):
         return '(CachePut %s %s %s)' % (G.z(m['i']), G.z(m['f']), G.b(m['ok']))
     if k == 'CacheDel':
         return '(CacheDel %s)' % G.z(m['i'])
-    if k in ('ReadyUp', 'ReadyDown', 'Restart'):
+    if k in ('ReadyUp', 'ReadyDown', 'Restart', 'Boot'):
         return k
     if k == 'DotFile':
         return '(DotFile %s)' % G.b(m['b'])
@@ -526,7 +561,7 @@ def nontrivial(case, res):
             by.setdefault(k.split(',')[0], []).append(k)
         if any(len(v) > 1 for v in by.values()):
             return True
-    return any(m['m'] in ('Exit', 'Restart') for m in res['mops']) and any(o['running'] for o in res['obs'])
+    return any(m['m'] in ('Exit', 'Restart', 'Boot') for m in res['mops']) and any(o['running'] for o in res['obs'])
 
 
 def _extra(_r, cases, obs):
@@ -580,7 +615,7 @@ def run(tier, seed):
         'shard': 100, 'corpus': 'c13.json',
         'rule': 'seeded generator: 1-3 instances, 6-26 ops drawn from cache put (configurable or not) / delete, .ready '
                 'up/down, dot-file events, deliver, container exit (exitinfo/aborted/oom + monitor cleanup), flag files, '
-                'cleanup completion by instance or container name, manager restart, plus scenario fragments '
+                'cleanup completion by instance or container name, manager restart, node boot (running/ and cleanup/ cleared), plus scenario fragments '
                 '(evict+re-place, terminate+restart+resync, exit+resync, late event); non-trivial = two generations of '
                 'one instance coexist in apps/, or an exit/restart happens while something runs',
         'trusted': TRUSTED, 'assumptions': ASSUMPTIONS, 'anchors': ANCHORS, 'extra': _extra,
